@@ -4,16 +4,26 @@ Every check must still exit 0: a VIOLATION or an analysis-broken exit on a benig
 import json, os, subprocess, sys
 VERIF = "/verif"
 claimed = [c["property_id"] for c in json.load(open(os.path.join(VERIF, "MANIFEST.json")))["checks"]]
-assert subprocess.run("git -C /repo status --porcelain --untracked-files=no", shell=True, capture_output=True, text=True).stdout.strip() == "", "/repo not clean"
+REPO = "/repo"
+if len(sys.argv) > 2 and sys.argv[1] == "--repo":
+    REPO = sys.argv[2]
+    del sys.argv[1:3]
+    if not os.path.exists(os.path.join(REPO, ".git")):
+        subprocess.check_call(["git", "clone", "-q", "/repo", REPO])
+        os.makedirs(os.path.join(REPO, "config"), exist_ok=True)
+        subprocess.check_call(["cp", "/repo/config/bitcoin-config.h", os.path.join(REPO, "config/")])
+    subprocess.check_call("git -C %s fetch -q /repo HEAD && git -C %s reset -q --hard FETCH_HEAD" % (REPO, REPO), shell=True)
+os.environ["VERIF_REPO"] = REPO
+assert subprocess.run("git -C %s status --porcelain --untracked-files=no" % REPO, shell=True, capture_output=True, text=True).stdout.strip() == "", "/repo not clean"
 bad = 0
 only = sys.argv[1:]
 for f in sorted(os.listdir(os.path.join(VERIF, "benign"))):
     if not f.endswith(".diff") or (only and not any(o in f for o in only)):
         continue
-    r = subprocess.run(["git", "-C", "/repo", "apply", os.path.join(VERIF, "benign", f)], capture_output=True, text=True)
+    r = subprocess.run(["git", "-C", REPO, "apply", os.path.join(VERIF, "benign", f)], capture_output=True, text=True)
     if r.returncode:
         print(f, "DOES NOT APPLY", r.stderr[-200:]); bad += 1
-        subprocess.run("git -C /repo reset -q --hard HEAD", shell=True)
+        subprocess.run("git -C %s reset -q --hard HEAD" % REPO, shell=True)
         continue
     try:
         res = {}
@@ -30,5 +40,5 @@ for f in sorted(os.listdir(os.path.join(VERIF, "benign"))):
             print(f, "ok (%d checks silent%s)" % (len(claimed) - len(anchors), "; %s report a renamed anchor with exit 2, no alarm" % anchors if anchors else ""), flush=True)
         bad += bool(res)
     finally:
-        subprocess.run("git -C /repo reset -q --hard HEAD", shell=True)
+        subprocess.run("git -C %s reset -q --hard HEAD" % REPO, shell=True)
 sys.exit(1 if bad else 0)
